@@ -1757,6 +1757,17 @@ struct ClosureApplyFn {
 
 fn compile_go(goenv: &GlobalGoEnv, closure: &anf::ImmExpr) -> goast::Stmt {
     let closure_ty = imm_ty(closure);
+    // A plain function value is started directly; a lifted closure through its apply method.
+    if let tast::Ty::TFunc { ret_ty, .. } = &closure_ty {
+        let direct_call = anf::CExpr::ECall {
+            func: closure.clone(),
+            args: vec![],
+            ty: (**ret_ty).clone(),
+        };
+        return goast::Stmt::Go {
+            call: compile_cexpr(goenv, &direct_call),
+        };
+    }
     let apply = find_closure_apply_fn(goenv, &closure_ty)
         .expect("go statement closure must have an apply method");
 
